@@ -31,7 +31,13 @@ def main():
                 ok = mod.replay(ctx, body['case'])
                 print('REPLAY property=%s %s: %s' % (prop, 'still-fails' if not ok else 'passes-now', body.get('what')))
                 return 1 if not ok else 0
+        import hcipy
+        want = os.path.realpath(os.environ.get('HCIPY_VERIF_REPO', '/repo'))
+        if not os.path.realpath(hcipy.__file__).startswith(want + os.sep):
+            raise common.MachineryError('hcipy imported from %s, expected under %s' % (hcipy.__file__, want))
         if not args.no_build:
+            if hasattr(mod, 'regenerate'):
+                mod.regenerate(ctx)      # tie T2/T3: rewrite lean/HcipyVerif/Gen/*.lean from the running code
             ctx.build_and_audit()
         mod.run(ctx)
         return ctx.finish()
